@@ -22,12 +22,12 @@ func init() {
 	})
 	register(&Rule{
 		ID: "RETRY-BOOK", Props: []string{"C14", "C15", "C16"}, Default: []string{"C14", "C16"}, Floor: 8,
-		Doc: "retries.Add refreshes the item (object, revisions, delete flag, error, retry time, attempt count) on every failure and re-positions it in both heaps; Clear forgets the item entirely (backoff starts over); LowWatermark reports 0 only when no failed item remains; the backoff is capped; progress is published from the revisions incremental.run actually processed",
+		Doc: "retries.Add refreshes what changes from failure to failure (object, retry time, attempt count), records the revision of the failing change once per item (origRev, the low watermark) and keeps both heaps complete (time heap re-positioned); Clear forgets the item entirely (backoff starts over); LowWatermark reports 0 only when no failed item remains; the backoff is capped; progress is published from the revisions incremental.run actually processed, the low watermark on every update",
 		Run: ruleRetryBook,
 	})
 	register(&Rule{
 		ID: "RECONCILER-WRITES", Props: []string{"C15"}, Floor: 6,
-		Doc: "package reconciler writes the reconciled table only by CompareAndSwap on the reconciled revision, by the status-only fallback Insert (revision mismatch, object exists, still Pending with the same id), and by the refresh Insert re-checked inside the same write transaction; never Delete/Modify; statuses are only set on cloned objects; a new pending status carries a fresh id",
+		Doc: "package reconciler writes the reconciled table only by CompareAndSwap on the reconciled revision, by the status-only fallback Insert (revision mismatch, object exists, status still the pending request that was reconciled or this reconciler's own Error), and by the refresh Insert re-checked inside the same write transaction; never Delete/Modify; statuses are only set on cloned objects; a new pending status carries a fresh id",
 		Run: ruleReconcilerWrites,
 	})
 	register(&Rule{
